@@ -63,6 +63,14 @@ type plainReader struct{ r io.Reader }
 
 func (p *plainReader) Read(b []byte) (int, error) { return p.r.Read(b) }
 
+// a reader that implements io.Seeker but cannot seek (an *os.File wrapping a pipe or a socket)
+type unseekableReader struct{ r io.Reader }
+
+func (u *unseekableReader) Read(b []byte) (int, error) { return u.r.Read(b) }
+func (u *unseekableReader) Seek(int64, int) (int64, error) {
+	return 0, fmt.Errorf("seek: illegal seek")
+}
+
 // a reader that satisfies every Read with at most n bytes (a connection delivering the frame in pieces)
 type chunkReader struct {
 	r io.Reader
@@ -509,6 +517,10 @@ func runGenCase(id string, idx int, gc genCase) J {
 	})
 	partial("discard_consumed", false, func(h *frame.Header, src io.Reader) error { return codec.DiscardBody(h, src) })
 	partial("discard_seek_consumed", true, func(h *frame.Header, src io.Reader) error { return codec.DiscardBody(h, src) })
+	partial("discard_unseekable_consumed", false, func(h *frame.Header, src io.Reader) error {
+		// src is the plain reader of this check: hand DiscardBody the same bytes behind a Seeker that cannot seek
+		return codec.DiscardBody(h, &unseekableReader{src})
+	})
 
 	// sources that deliver the bytes in pieces (io.Reader allows short reads): every decoding path gives the same result
 	for _, chunk := range []int{1, 7, 4096} {
